@@ -1,7 +1,164 @@
-/-  C03/Driver — line protocol front end (core-only).  Placeholder until the property is built. -/
+/-
+  C03/Driver — line protocol front end (core-only).
+    expr <mode> <tree> <srchex> <toks>
+        tree  : the generating tree, Polish notation, items separated by ','
+        toks  : the real scanner's token stream for the rendered source (astx.TokWire)
+      reply: model = dump of Model.parseExpression on the real tokens (`reject` if it records an error or
+             does not stop at EOF), spec = dump of the generating tree (plus `;lex` when mode = min and the
+             real token stream differs from `Spec.print tree`), dev = deviation regions of the tree.
+-/
 import OttoVerif.Base.Proto
+import OttoVerif.C03.Spec
+import OttoVerif.C03.Lit
 namespace OttoVerif.C03.Driver
+open OttoVerif.C03 OttoVerif.Proto
 
-def handle (_ws : List String) : String := "bad-op"
+def unhex (s : String) : Option String :=
+  (bytes? s).bind fun bs => String.fromUTF8? (ByteArray.mk (bs.map (·.toUInt8)).toArray)
+
+def hexOf (s : String) : String := bytesOut (s.toUTF8.toList.map (·.toNat))
+
+def p? : String → Option P
+  | "+" => some .plus | "-" => some .minus | "*" => some .star | "/" => some .slash | "%" => some .percent
+  | "&" => some .amp | "|" => some .bar | "^" => some .caret | "<<" => some .shl | ">>" => some .shr | ">>>" => some .ushr | "&^" => some .andnot
+  | "+=" => some .addA | "-=" => some .subA | "*=" => some .mulA | "/=" => some .divA | "%=" => some .remA
+  | "&=" => some .andA | "|=" => some .orA | "^=" => some .xorA | "<<=" => some .shlA | ">>=" => some .shrA | ">>>=" => some .ushrA | "&^=" => some .andnotA
+  | "&&" => some .land | "||" => some .lor | "++" => some .inc | "--" => some .dec
+  | "==" => some .eq | "===" => some .seq | "<" => some .lt | ">" => some .gt | "=" => some .assign | "!" => some .not | "~" => some .bnot
+  | "!=" => some .ne | "!==" => some .sne | "<=" => some .le | ">=" => some .ge
+  | "(" => some .lparen | "[" => some .lbrack | "{" => some .lbrace | "," => some .comma | "." => some .dot
+  | ")" => some .rparen | "]" => some .rbrack | "}" => some .rbrace | ";" => some .semi | ":" => some .colon | "?" => some .quest
+  | "if" => some .kIf | "in" => some .kIn | "do" => some .kDo | "var" => some .kVar | "for" => some .kFor | "new" => some .kNew
+  | "try" => some .kTry | "this" => some .kThis | "else" => some .kElse | "case" => some .kCase | "void" => some .kVoid
+  | "with" => some .kWith | "while" => some .kWhile | "break" => some .kBreak | "catch" => some .kCatch | "throw" => some .kThrow
+  | "return" => some .kReturn | "typeof" => some .kTypeof | "delete" => some .kDelete | "switch" => some .kSwitch
+  | "default" => some .kDefault | "finally" => some .kFinally | "function" => some .kFunction | "continue" => some .kContinue
+  | "debugger" => some .kDebugger | "instanceof" => some .kInstanceof | _ => none
+
+def tok? (w : String) : Option Tok :=
+  let nl := w.startsWith "#"
+  let w := if nl then (w.drop 1).toString else w
+  if w = "~" then some { k := .p .bnot, nl } else
+  match w.splitOn "~" with
+  | [k, h] => do
+    let lit ← unhex h
+    match k with
+    | "IDENTIFIER" => pure { k := .id lit, nl }
+    | "NUMBER" => pure { k := .num lit, nl }
+    | "STRING" => pure { k := .str lit, nl }
+    | "BOOLEAN" => pure { k := .bool lit, nl }
+    | "NULL" => pure { k := .null, nl }
+    | "KEYWORD" => pure { k := .kw lit, nl }
+    | "ILLEGAL" => pure { k := .illegal, nl }
+    | _ => none
+  | [k] =>
+    if k = "EOF" then some { k := .eof, nl }
+    else (p? k).map fun x => { k := .p x, nl }
+  | _ => none
+
+def toks? (s : String) : Option (List Tok) := (s.splitOn "`").mapM tok?
+
+def binName : BinOp → String
+  | .mul => "mul" | .div => "div" | .rem => "rem" | .add => "add" | .sub => "sub" | .shl => "shl" | .shr => "shr" | .ushr => "ushr"
+  | .lt => "lt" | .gt => "gt" | .le => "le" | .ge => "ge" | .instanceof => "instanceof" | .in_ => "in"
+  | .eq => "eq" | .ne => "ne" | .seq => "seq" | .sne => "sne" | .band => "band" | .bxor => "bxor" | .bor => "bor"
+  | .land => "land" | .lor => "lor" | .comma => "comma"
+def allBin : List BinOp := [.mul, .div, .rem, .add, .sub, .shl, .shr, .ushr, .lt, .gt, .le, .ge, .instanceof, .in_, .eq, .ne, .seq, .sne, .band, .bxor, .bor, .land, .lor, .comma]
+def bin? (s : String) : Option BinOp := allBin.find? (fun o => binName o = s)
+
+def unName : UnOp → String
+  | .pos => "pos" | .neg => "neg" | .not => "not" | .bnot => "bnot" | .delete => "delete" | .void => "void" | .typeof => "typeof"
+  | .preinc => "preinc" | .predec => "predec"
+def allUn : List UnOp := [.pos, .neg, .not, .bnot, .delete, .void, .typeof, .preinc, .predec]
+def un? (s : String) : Option UnOp := allUn.find? (fun o => unName o = s)
+
+def asgName : AsgOp → String
+  | .assign => "assign" | .add => "add" | .sub => "sub" | .mul => "mul" | .div => "div" | .rem => "rem" | .band => "band"
+  | .andnot => "andnot" | .bor => "bor" | .bxor => "bxor" | .shl => "shl" | .shr => "shr" | .ushr => "ushr"
+def allAsg : List AsgOp := [.assign, .add, .sub, .mul, .div, .rem, .band, .andnot, .bor, .bxor, .shl, .shr, .ushr]
+def asg? (s : String) : Option AsgOp := allAsg.find? (fun o => asgName o = s)
+
+mutual
+partial def dumpArgs (e : E) : List String :=
+  match e with
+  | .acons h tl => dump h ++ dumpArgs tl
+  | _ => []
+partial def argCount (e : E) : Nat :=
+  match e with
+  | .acons _ tl => argCount tl + 1
+  | _ => 0
+partial def dump (e : E) : List String :=
+  match e with
+  | .id s => ["id~" ++ hexOf s] | .num s => ["num~" ++ hexOf s] | .str s => ["str~" ++ hexOf s] | .bool s => ["bool~" ++ hexOf s]
+  | .null => ["null"] | .this_ => ["this"]
+  | .bin o l r => ("bin." ++ binName o) :: (dump l ++ dump r)
+  | .un o e => ("un." ++ unName o) :: dump e
+  | .post i e => (if i then "post.inc" else "post.dec") :: dump e
+  | .cond c a b => "cond" :: (dump c ++ dump a ++ dump b)
+  | .asg o l r => ("asg." ++ asgName o) :: (dump l ++ dump r)
+  | .dot e s => ("dot~" ++ hexOf s) :: dump e
+  | .idx e i => "idx" :: (dump e ++ dump i)
+  | .call f a => s!"call.{argCount a}" :: (dump f ++ dumpArgs a)
+  | .new_ f .noargs => "newx" :: dump f
+  | .new_ f a => s!"new.{argCount a}" :: (dump f ++ dumpArgs a)
+  | _ => ["?"]
+end
+
+def dumpStr (e : E) : String := ",".intercalate (dump e)
+
+mutual
+partial def readE (items : List String) : Option (E × List String) :=
+  match items with
+  | [] => none
+  | h :: r =>
+    match h.splitOn "~" with
+    | [k, x] => do
+      let s ← unhex x
+      match k with
+      | "id" => pure (.id s, r) | "num" => pure (.num s, r) | "str" => pure (.str s, r) | "bool" => pure (.bool s, r)
+      | "dot" => do let (e, r) ← readE r; pure (.dot e s, r)
+      | _ => none
+    | _ =>
+      match h.splitOn "." with
+      | ["null"] => some (.null, r) | ["this"] => some (.this_, r)
+      | ["bin", o] => do let o ← bin? o; let (l, r) ← readE r; let (x, r) ← readE r; pure (.bin o l x, r)
+      | ["un", o] => do let o ← un? o; let (e, r) ← readE r; pure (.un o e, r)
+      | ["post", o] => do let (e, r) ← readE r; pure (.post (o = "inc") e, r)
+      | ["cond"] => do let (c, r) ← readE r; let (a, r) ← readE r; let (b, r) ← readE r; pure (.cond c a b, r)
+      | ["asg", o] => do let o ← asg? o; let (l, r) ← readE r; let (x, r) ← readE r; pure (.asg o l x, r)
+      | ["idx"] => do let (e, r) ← readE r; let (i, r) ← readE r; pure (.idx e i, r)
+      | ["call", n] => do let n ← n.toNat?; let (f, r) ← readE r; let (a, r) ← readArgs n r; pure (.call f a, r)
+      | ["new", n] => do let n ← n.toNat?; let (f, r) ← readE r; let (a, r) ← readArgs n r; pure (.new_ f a, r)
+      | ["newx"] => do let (f, r) ← readE r; pure (.new_ f .noargs, r)
+      | _ => none
+partial def readArgs (n : Nat) (items : List String) : Option (E × List String) :=
+  if n = 0 then some (.anil, items) else do
+    let (h, r) ← readE items
+    let (t, r) ← readArgs (n - 1) r
+    pure (.acons h t, r)
+end
+
+def eraseNl (ts : List Tok) : List Tok := ts.map fun t => { t with nl := false }
+
+def fuelFor (ts : List Tok) : Nat := 40 * ts.length + 200
+
+def handleExpr (mode tree toks : String) : String :=
+  match readE (tree.splitOn ","), toks? toks with
+  | some (t, []), some ts =>
+    let model := match parseExpression (fuelFor ts) true ts with
+      | some (e, [t]) => if t.k = .eof then dumpStr e else "reject"
+      | _ => "reject"
+    let lexOk := mode != "min" || eraseNl ts == Spec.print t ++ [{ k := .eof }]
+    let spec := dumpStr t ++ (if lexOk then "" else ";lex")
+    let dev := if Spec.relChain t then "relational_chain" else "-"
+    model ++ " " ++ spec ++ " " ++ dev
+  | _, _ => "bad-request bad-request -"
+
+def handle (ws : List String) : String :=
+  match ws with
+  | ["expr", mode, tree, _src, toks] => handleExpr mode tree toks
+  | "num" :: rest => Lit.handleNum rest
+  | "str" :: rest => Lit.handleStr rest
+  | _ => "bad-op bad-op -"
 
 end OttoVerif.C03.Driver
